@@ -18,6 +18,14 @@ impl WasmModuleResolver {
     pub fn had_unresolved(&self) -> bool {
         self.resolutions_cache.values().any(|it| it.is_none())
     }
+
+    /// every specifier asked of this resolver, with the answer the host gave
+    pub fn resolutions(&self) -> Vec<(String, Option<BffFileName>)> {
+        self.resolutions_cache
+            .iter()
+            .map(|((_, specifier), resolved)| (specifier.clone(), resolved.clone()))
+            .collect()
+    }
 }
 
 impl FsModuleResolver for WasmModuleResolver {
